@@ -1216,7 +1216,7 @@ def subclass_spec_as_namespace(val, prev_val=None):
     if not is_subclass_spec(val) and isinstance(prev_val, (Namespace, dict)) and "class_path" in prev_val:
         if "init_args" in val or "dict_kwargs" in val:
             val["class_path"] = prev_val["class_path"]
-        else:
+        elif "class_path" not in val:
             val = Namespace(class_path=prev_val["class_path"], init_args=val)
     return val
 
